@@ -99,7 +99,13 @@ def ref_offset_at(tz, u_unix):
 def ref_render(tz, U):
     """(wall, fold, offset) of the instant U (microseconds since 0001-01-01 UTC) in tz, by the stdlib."""
     d = _dt.datetime(1, 1, 1, tzinfo=_dt.timezone.utc) + _dt.timedelta(microseconds=U)
-    l = d.astimezone(tz)
+    try:
+        l = d.astimezone(tz)
+    except OverflowError:
+        # the rendering falls outside years 1..9999: report the (out of range) wall value from the offset in force nearby
+        near = min(max(U, 2 * US_DAY), MAX_WALL - 2 * US_DAY)
+        o = off_s((_dt.datetime(1, 1, 1, tzinfo=_dt.timezone.utc) + _dt.timedelta(microseconds=near)).astimezone(tz))
+        return U + o * MEG, 0, o
     return wall_of(l), l.fold, off_s(l)
 
 
